@@ -129,7 +129,12 @@ class BasicContiguousVector<cntgs::Options<Option...>, Parameter...>
     {
     }
 
-    BasicContiguousVector(BasicContiguousVector&&) = default;
+    constexpr BasicContiguousVector(BasicContiguousVector&& other) noexcept
+        : max_element_count_(std::exchange(other.max_element_count_, size_type{})),
+          memory_(std::move(other.memory_)),
+          locator_(std::move(other.locator_))
+    {
+    }
 
     BasicContiguousVector& operator=(const BasicContiguousVector& other)
     {
@@ -468,7 +473,7 @@ class BasicContiguousVector<cntgs::Options<Option...>, Parameter...>
     constexpr void steal(BasicContiguousVector&& other) noexcept
     {
         destruct();
-        max_element_count_ = other.max_element_count_;
+        max_element_count_ = std::exchange(other.max_element_count_, size_type{});
         memory_ = std::move(other.memory_);
         locator_ = std::move(other.locator_);
     }
